@@ -637,6 +637,25 @@ def rule_max_clique(F, R):
         for x in walk(e['else']):
             if x['k'] == 'Call' and x['args'] and ((callee_name(x) or '') in ('std::collections::HashSet::iter', 'core::slice::<impl [T]>::iter', 'std::collections::BTreeSet::iter') or
                                                   callee_decl(x) == 'std::iter::IntoIterator::into_iter') and P.place(x['args'][0]) == X: n += 1
+    # ... and each of these lists is a list: its members are joined by a comma (a list joined by blanks is not a sentence); the constraints
+    # generated from the complement list are joined by `&`
+    from engine_t import tokenizer_pattern as _tp
+    pat_ = _tp(F.lib())[0]
+    if pat_ is not None:
+        nj = 0
+        for x in walk(t['body']):
+            if x['k'] == 'Call' and (callee_name(x) or '').split('::')[-1] == 'join' and len(x['args']) == 2:
+                sep = [y['value'] for y in walk(x['args'][1]) if y['k'] == 'Literal' and y.get('lit') == 'Str']
+                src = strip(x['args'][0])
+                while src['k'] == 'Call' and src['args']: src = strip(src['args'][0])
+                pl = P.place(src) if src['k'] in ('VarRef', 'UpvarRef', 'Field') else None
+                want_ = ['Comma'] if pl == X else ['And'] if pl == T else None
+                if want_ is None or len(sep) != 1: continue
+                nj += 1
+                okj = tokenize_text(pat_, sep[0]) == want_
+                R.obligation(okj, 'L join separator %s' % x.get('loc'))
+                if not okj: R.violation('max_clique_gen::main / L / list separator', 'L', 'the members of this list must be joined by `%s`; they are joined by %r' % (', ' if want_ == ['Comma'] else ' & ', sep[0]), x.get('loc'))
+        R.count('L:join-separators', nj)
     R.count('L:vertex-list-uses', n); R.obligation(n == 3, 'L vertices uses')
     if n != 3: R.violation('max_clique_gen::main / L / vertex lists', 'L', 'the forall binder list and the two counting lists must each be generated from the vertex collection (found %d uses)' % n)
 
